@@ -9,7 +9,8 @@ from cxx2c import unwrap
 
 H = 'specs/C02/nonls.h'
 VEC = r'^nano::vector_t$|tensor_t<nano::tensor_vector_storage_t, double, 1'
-TYPES = [(VEC, 'struct nv_vec'), (r'::RealScalar$|::Scalar$', 'double')] + list(common.TYPES)
+TYPES = [(VEC, 'struct nv_vec'), (r'::RealScalar$|::Scalar$', 'double'), (r'^std::tuple<double, double>$', 'struct nv_tuple_f64_f64'),
+         (r'tuple_element<[01], (const )?std::tuple<double, double>>::type', 'double')] + list(common.TYPES)
 MEMBERS = [(r'^fcalls\|nano::function_t', 'nv_fn_fcalls'), (r'^gcalls\|nano::function_t', 'nv_fn_gcalls'),
            (r'^size\|nano::function_t', 'nv_fn_size'), (r'^(smooth|strong_convexity)\|nano::function_t', '@nondet'),
            (r'^x\|nano::solver_state_t', 'nv_state_x({self})'), (r'^gx\|nano::solver_state_t', 'nv_state_gx({self})'),
@@ -52,7 +53,10 @@ def body(cname, tu, flt, extra_opaque=(), extra_members=(), extra_calls=(), extr
     return f
 
 
-BODIES = [('sgm_do_minimize', 'src/solver/sgm.cpp', 'solver_sgm_t::do_minimize', {})]
+BODIES = [('sgm_do_minimize', 'src/solver/sgm.cpp', 'solver_sgm_t::do_minimize', {}),
+          ('ellipsoid_do_minimize', 'src/solver/ellipsoid.cpp', 'solver_ellipsoid_t::do_minimize', {'extra_members': [(r'^dot\|Eigen::', 'nv_dot()')]}),
+          ('cocob_do_minimize', 'src/solver/cocob.cpp', 'solver_cocob_t::do_minimize', {}),
+          ('osga_do_minimize', 'src/solver/osga.cpp', 'solver_osga_t::do_minimize', {'extra_opaque': [r'proxy_t']})]
 
 
 def targets():
